@@ -372,14 +372,17 @@ def histories(chk):
     quick = chk.tier == "quick"
     n = 2
     c = storeops_constants(n)
-    mc, cfg = tla_consts(dict(c, Comps={"blosc", "zstd"}), 3 if quick else 4)
-    d = V.stage_spec(["StoreOps"], {"MC.tla": "---- MODULE MC ----\nEXTENDS StoreOps\n" + mc + "====\n",
-                                    "MC.cfg": "SPECIFICATION Spec\n" + cfg + "INVARIANT AllCopiesComplete\nPROPERTY SourceIntact\nCHECK_DEADLOCK FALSE\n"})
-    r = V.run_tlc(d, "MC", "MC.cfg", workers=4, timeout=1800)
-    chk.add_tlc(r, "StoreOps.tla: all operation histories of the bound (AllCopiesComplete, SourceIntact)")
-    V.tlc_must_finish(r, "StoreOps")
-    if r.violated:
-        raise V.MachineryError(f"StoreOps.tla violates {r.violated}")
+    # quick: three locations, histories of <= 3 operations; thorough adds two locations with <= 4 operations (three locations with
+    # four operations and the action that copies everywhere at once is beyond TLC in the time of a check)
+    for locs, maxops in ((("A", "B", "C"), 3),) + (() if quick else ((("A", "B"), 4),)):
+        mc, cfg = tla_consts(dict(c, Comps={"blosc", "zstd"}, Locs=set(locs)), maxops)
+        d = V.stage_spec(["StoreOps"], {"MC.tla": "---- MODULE MC ----\nEXTENDS StoreOps\n" + mc + "====\n",
+                                        "MC.cfg": "SPECIFICATION Spec\n" + cfg + "INVARIANT AllCopiesComplete\nPROPERTY SourceIntact\nCHECK_DEADLOCK FALSE\n"})
+        r = V.run_tlc(d, "MC", "MC.cfg", workers=4, timeout=3000)
+        chk.add_tlc(r, f"StoreOps.tla: all operation histories of <= {maxops} operations over locations {locs} (AllCopiesComplete, SourceIntact)")
+        V.tlc_must_finish(r, "StoreOps")
+        if r.violated:
+            raise V.MachineryError(f"StoreOps.tla violates {r.violated}")
     rng = random.Random(chk.seed)
     res = []
     for lay in (n, 13):                      # the 2-chunk layout, and a 3-chunk layout whose middle chunk has no rows
